@@ -703,3 +703,17 @@ SPECS["C16"]["not_covered"] = ["that each listed memo really is a function of th
 SPECS["C10"]["contracts"] += ["smpl_extract.structural:Image.make_safe_name"]
 SPECS["C10"]["level_text"] += ("; make_safe_name (every ASCII name): the printed name consists of word characters, blanks and - = : . @ # & + only - it contains no path separator - and has no blank at "
                                "either end, which is what the parse_path contracts require of printed names (regex sub of `[^class]+|...`: the first alternative wins at every position)")
+
+# ---- larger shapes of the per-shape contracts: thorough tier only (same obligations, more paths)
+def _thor(pid, keys):
+    SPECS[pid]["contracts_thorough"] = SPECS[pid].get("contracts_thorough", []) + keys
+
+
+for _p in ("C06", "C10"):
+    _thor(_p, ["smpl_extract.structural:Image.make_export_names_routine[n=5]"] + (["smpl_extract.structural:Image.make_safe_names_routine[n=5]"] if _p == "C10" else []))
+_thor("C18", ["smpl_extract.akai.akai_string:AkaiString._decode[len=4]"])
+for _p in ("C14", "C15"):
+    _thor(_p, ["smpl_extract.akai.volume:Volume._realize_files[n=4]"])
+_thor("C14", ["smpl_extract.util.constructs:SafeListConstruct._parse[count=4]"])
+_thor("C01", ["smpl_extract.akai.volume:VolumesAdapter._decode_element[entries=4]"])
+_thor("C10", [f"smpl_extract.structural:Traversable.get_info[children={n}]" for n in (4, 5)])
